@@ -396,7 +396,16 @@ def run_native(s, stage_dir, tier, res):
     cc = s.get("cc", "clang")
     cmd = [cc, "-g", "-O1", "-fsanitize=address,undefined", "-fno-sanitize-recover=undefined", "-DVERIF_ERROR=yaep_error",
            "-D__CPROVER_assigns(...)=", "-D__CPROVER_loop_invariant(...)=", "-D__CPROVER_decreases(...)=",
-           "-I" + stage_dir, "-I" + os.path.join(VERIF, "contracts")] + defs + srcs + ["-o", exe] + s.get("ldflags", [])
+           "-I" + stage_dir, "-I" + os.path.join(VERIF, "contracts")] + defs
+    if cc == "clang++":      # mixed C / C++ stand-in: each file in its own language
+        cmd[0] = "clang++"
+        cmd.append("-I" + os.path.join(stage_dir, "plain"))
+        for f in srcs:
+            cmd += ["-x", "c++" if f.endswith((".cpp", ".cc")) else "c", f]
+        cmd += ["-x", "none"]
+    else:
+        cmd += srcs
+    cmd += ["-o", exe] + s.get("ldflags", [])
     rc, out, err, dt = sh(cmd, wdir, 300, 64, log)
     res["build_time_s"] = dt
     res["cmds"].append(" ".join(cmd).replace(stage_dir, "<stage>"))
